@@ -21,11 +21,13 @@ RULE = ("initial write (0, 1 or 2 partition columns) then up to depth d operatio
 ASSUMPTIONS = ["row order inside the dataset is not compared (multiset per partition)",
                "the rows a removal deletes are the rows of the chosen row groups as read in the (already validated) previous state"]
 
+# partition values chosen so that one directory name is a textual prefix of another at the last level
+# (p=a / p=ab with one partition column, p=a/q=1 / p=a/q=12 with two)
 FRAMES = {
-    "ab": [("a", 1), ("b", 2)],
+    "ab": [("a", 1), ("ab", 12)],
     "a": [("a", 1)],
     "c": [("c", 9)],
-    "abc1": [("a", 1), ("b", 2), ("c", 9)],
+    "abc1": [("a", 1), ("ab", 12), ("c", 9), ("a", 12)],
 }
 
 
